@@ -24,6 +24,73 @@ def _tied_param(bt):
     raise AnalysisError('breakTie of %s has no `tied` parameter' % bt.qualname)
 
 
+def _tie_numbering(ctx, tie):
+    """how __bltOptionTie fills self.tieOrder: must map candidate id -> 1-based position in the listed order.
+    Returns (True/False/None, text)."""
+    lst = tie.params[1] if len(tie.params) > 1 else 'option_list'
+    # dict(enumerate(xs, 1)) maps position -> candidate: the inverse permutation
+    for n in tie.own_nodes():
+        if isinstance(n, ast.Assign) and unparse(n.targets[0]) == 'self.tieOrder' and isinstance(n.value, ast.Call) \
+                and isinstance(n.value.func, ast.Name) and n.value.func.id == 'dict' and n.value.args \
+                and isinstance(n.value.args[0], ast.Call) and unparse(n.value.args[0].func) == 'enumerate':
+            return False, '`%s` maps position -> candidate id; every reader takes tieOrder[cid] as the candidate\'s rank (the inverse ' \
+                          'permutation is used)' % unparse(n)
+        if isinstance(n, ast.Assign) and unparse(n.targets[0]) == 'self.tieOrder' and isinstance(n.value, ast.DictComp):
+            dc = n.value
+            g = dc.generators[0]
+            if isinstance(g.iter, ast.Call) and unparse(g.iter.func) == 'enumerate' and isinstance(g.target, ast.Tuple) and len(g.target.elts) == 2:
+                iv, ev = g.target.elts
+                start = g.iter.args[1].value if len(g.iter.args) > 1 and isinstance(g.iter.args[1], ast.Constant) else \
+                    next((k.value.value for k in g.iter.keywords if k.arg == 'start' and isinstance(k.value, ast.Constant)), 0)
+                val = unparse(dc.value).replace(' ', '')
+                v_ok = (start == 1 and val == iv.id) or (start == 0 and val in (iv.id + '+1', '1+' + iv.id))
+                k_ok = any(isinstance(x, ast.Name) and x.id == ev.id for x in ast.walk(dc.key))
+                return (v_ok and k_ok), 'dict comprehension over enumerate: key from the token, value %s (start %s)' % (unparse(dc.value), start)
+    stores = [n for n in tie.own_nodes() if isinstance(n, ast.Subscript) and isinstance(n.ctx, ast.Store) and unparse(n.value) == 'self.tieOrder']
+    if len(stores) != 1:
+        return None, '__bltOptionTie fills self.tieOrder in an unrecognised way (%d subscript stores)' % len(stores)
+    st = ctx.repo.enclosing_stmt(stores[0])
+    loop = st.parent
+    while loop is not None and not isinstance(loop, (ast.For, ast.FunctionDef)):
+        loop = loop.parent
+    if not isinstance(loop, ast.For) or not isinstance(st, ast.Assign):
+        return None, 'the store into self.tieOrder is not inside a for-loop'
+    val = st.value
+    # the element variable of the loop must feed the key (through getCid)
+    if isinstance(loop.iter, ast.Call) and unparse(loop.iter.func) == 'enumerate':
+        if not (isinstance(loop.target, ast.Tuple) and len(loop.target.elts) == 2 and unparse(loop.iter.args[0]) == lst):
+            return None, 'enumerate loop of unrecognised shape'
+        iv, ev = loop.target.elts
+        start = loop.iter.args[1].value if len(loop.iter.args) > 1 and isinstance(loop.iter.args[1], ast.Constant) else \
+            next((k.value.value for k in loop.iter.keywords if k.arg == 'start' and isinstance(k.value, ast.Constant)), 0)
+        v = unparse(val).replace(' ', '')
+        ok = (start == 1 and v == iv.id) or (start == 0 and v in (iv.id + '+1', '1+' + iv.id))
+        elem = ev.id
+        how = 'for %s, %s in enumerate(%s, %s): self.tieOrder[...] = %s' % (iv.id, ev.id, lst, start, unparse(val))
+    else:
+        if unparse(loop.iter) != lst or not isinstance(loop.target, ast.Name) or not isinstance(val, ast.Name):
+            return None, 'loop over the tie list of unrecognised shape'
+        elem = loop.target.id
+        cnt = val.id
+        inits = [n for n in tie.node.body if isinstance(n, ast.Assign) and isinstance(n.targets[0], ast.Name) and n.targets[0].id == cnt
+                 and n.lineno < loop.lineno]
+        incs = [n for n in loop.body if isinstance(n, ast.AugAssign) and isinstance(n.target, ast.Name) and n.target.id == cnt]
+        ok = len(inits) == 1 and isinstance(inits[0].value, ast.Constant) and inits[0].value.value == 0 and len(incs) == 1 \
+            and isinstance(incs[0].op, ast.Add) and isinstance(incs[0].value, ast.Constant) and incs[0].value.value == 1 \
+            and incs[0].lineno < st.lineno
+        how = '%s = 0; per token: %s += 1; self.tieOrder[cid] = %s' % (cnt, cnt, cnt)
+    key = stores[0].slice
+    key_expr = key
+    if isinstance(key, ast.Name):
+        ks = [n for n in loop.body if isinstance(n, ast.Assign) and isinstance(n.targets[0], ast.Name) and n.targets[0].id == key.id]
+        key_expr = ks[0].value if len(ks) == 1 else None
+    k_ok = key_expr is not None and isinstance(key_expr, ast.Call) and unparse(key_expr.func) == 'self.getCid' \
+        and key_expr.args and isinstance(key_expr.args[0], ast.Name) and key_expr.args[0].id == elem
+    if not k_ok:
+        return False, 'the key of self.tieOrder is not getCid(<token of this position>)'
+    return ok, (how if ok else 'the tie rank stored is not the 1-based position of the token: ' + how)
+
+
 def r15_tie_funnel(ctx):
     R = 'R15'
     repo = ctx.repo
@@ -75,10 +142,10 @@ def r15_tie_funnel(ctx):
     pt = repo.cls('droop.profile.ElectionProfile')
     tie = pt.methods.get(pt.mangle('__bltOptionTie')) or pt.methods.get('__bltOptionTie')
     need(tie is not None, '__bltOptionTie missing')
-    txt = [unparse(s) for s in ast.walk(tie.node) if isinstance(s, (ast.Assign, ast.AugAssign))]
-    ok = 'o = 0' in txt and 'o += 1' in txt and 'self.tieOrder[cid] = o' in txt
-    ctx.check(ok, R, tie.node, tie, 'the [tie ...] list is numbered 1,2,3,... in reading order (first listed = lowest rank)',
-              'o = 0; per token: o += 1; self.tieOrder[cid] = o', '[tie] numbering changed: %s' % txt)
+    ok, how = _tie_numbering(ctx, tie)
+    if ok is None:
+        raise AnalysisError('R15: ' + how)
+    ctx.check(ok, R, tie.node, tie, 'the [tie ...] list is numbered 1,2,3,... in reading order (first listed = lowest rank)', how, how)
     pin = pt.methods['__init__']
     ok = any(unparse(s) == 'self.tieOrder[cid] = cid' for s in ast.walk(pin.node) if isinstance(s, ast.Assign))
     ctx.check(ok, R, pin.node, pin, 'the default tie-break order is the ballot order', 'self.tieOrder[cid] = cid', 'default tie order changed',
@@ -321,6 +388,56 @@ def r17_single_from_breaktie(ctx):
 # R18
 # ---------------------------------------------------------------------------
 
+def _is_total_pending_surplus(ctx, F, e):
+    """sum([(c.vote - E.quota) for c in C.pending()], V0)  (list or generator)"""
+    if not (isinstance(e, ast.Call) and isinstance(e.func, ast.Name) and e.func.id == 'sum' and len(e.args) == 2):
+        return False
+    g = e.args[0]
+    if not (isinstance(g, (ast.ListComp, ast.GeneratorExp)) and len(g.generators) == 1 and not g.generators[0].ifs):
+        return False
+    gen = g.generators[0]
+    if not (is_selector_call(ctx, F, gen.iter, 'pending') and isinstance(gen.target, ast.Name)):
+        return False
+    v = gen.target.id
+    el = g.elt
+    return isinstance(el, ast.BinOp) and isinstance(el.op, ast.Sub) and unparse(el.left) == '%s.vote' % v \
+        and ctx.canon(el.right, F) == 'E.quota' and ctx.canon(e.args[1], F) == 'E.V0'
+
+
+def _check_surplus_is_total(ctx, R, ri, F):
+    """the `surplus` used by a sure-loser test is all the untransferred surplus: the sum over the pending
+    candidates of (tally - quota), or (parameter) an argument that contains E.surplus as an additive term"""
+    what = 'the surplus added in a sure-loser test is ALL untransferred surplus (every pending candidate\'s tally minus the quota)'
+    if 'surplus' in F.params:
+        i = F.params.index('surplus')
+        sites = [c for c in F.parent.all_nodes() if isinstance(c, ast.Call) and isinstance(c.func, ast.Name) and c.func.id == F.name]
+        ok = bool(sites)
+        for c in sites:
+            a = c.args[i] if i < len(c.args) else None
+            caller = ctx.repo.enclosing_func(c)
+            terms = []
+
+            def flat(x):
+                if isinstance(x, ast.BinOp) and isinstance(x.op, ast.Add):
+                    flat(x.left)
+                    flat(x.right)
+                else:
+                    terms.append(x)
+            if a is not None:
+                flat(a)
+            if not any(ctx.canon(t, caller) == 'E.surplus' for t in terms):
+                ok = False
+        ctx.check(ok, R, F.node, F, what, '%s(surplus) is called with E.surplus (the total over all elected candidates, R12) as a term' % F.name,
+                  '%s() is not given E.surplus' % F.name)
+        return
+    defs = [n for n in F.own_nodes() if isinstance(n, ast.Assign) and len(n.targets) == 1 and isinstance(n.targets[0], ast.Name)
+            and n.targets[0].id == 'surplus']
+    ok = len(defs) == 1 and _is_total_pending_surplus(ctx, F, defs[0].value)
+    ctx.check(ok, R, defs[0] if defs else F.node, F, what, 'surplus = sum([(c.vote - E.quota) for c in C.pending()], V0)',
+              '`surplus` in %s() is `%s`: not the sum of every pending surplus, so candidates that can still catch up are treated as sure losers'
+              % (F.name, unparse(defs[0].value) if defs else None))
+
+
 def r18_sure_loser_strict(ctx):
     R = 'R18'
     n = 0
@@ -356,6 +473,7 @@ def r18_sure_loser_strict(ctx):
                     ok, how = False, 'sure-loser test `%s` is not a strict inequality: a batch whose votes plus surplus EQUAL the next ' \
                                      'tally is not a set of sure losers' % unparse(c)
                 ctx.check(ok, R, c, F, 'a batch is excluded only if its votes plus all untransferred surplus are strictly below the next tally', how, how)
+            _check_surplus_is_total(ctx, R, ri, F)
             ctx.check(found >= 1, R, L, F, '%s compares the batch total plus surplus with the next candidate\'s tally' % name,
                       '%d comparison(s)' % found, 'no comparison of (votes + surplus) with the next tally found in %s' % name, nontrivial=False)
     ctx.floor(R, 'sure-loser comparisons', n, 4)
